@@ -4070,7 +4070,8 @@ for _pre, _op in (("mkdir_p", "move_p"), ("mkdir_p", "remove"), ("mkdir_p", "cop
     _mk_hist("c01_hist_%s_%s" % (_pre, _op), [_pre], [_op], "quick")
 for _pre in ("mkdir_p", "mkfile", "symlink", "remove", "move_p", "set_cwd", "remove_all", "write_all", "copy"):
     _mk_hist("c01_hist2_%s_a" % _pre, [_pre], HIST_OPS[:5], "thorough")
-    _mk_hist("c01_hist2_%s_b" % _pre, [_pre], HIST_OPS[5:], "thorough")
+    # two-path first calls followed by two-path second calls are 16 length combinations each: only move_p is kept for them
+    _mk_hist("c01_hist2_%s_b" % _pre, [_pre], HIST_OPS[5:] if _pre not in ("symlink", "move_p", "copy") else ["remove_all", "set_cwd", "move_p"], "thorough")
 
 
 def _mk_c11t(name, ops, n, tier, cwds=("/", "/a")):
